@@ -1,4 +1,4 @@
-import Log4rsModel.Console.Lemmas
+import Log4rsModel.Console.LemmasFormatted
 /-
 C18 — Console output obeys tty_only and colour policy; ANSI sequences are well-formed.
 
@@ -7,6 +7,9 @@ Every finite domain is enumerated COMPLETELY: the 27 environments × terminal/pi
 covered by case analysis on the *types* (`Env`, `Bool`: every inhabitant, not a sample), the 243
 styles by `decide +kernel` over the whole table `allStyles` — these are proofs, marked
 [exhaustive]. Highlight nestings are unbounded; those theorems are by induction on the pattern.
+Patterns whose highlight groups (and the groups around them) carry format specs are covered by the
+`…_formatted` theorems: the writer stack is `codeFmtOps` (C10), the only fact used about it is
+`C10_styles_preserved`.
 
 Two clauses of the statement are FALSE of the current code (model defaults `bufLen = 12`,
 `ttyOnlyUsesIsatty = false`):
@@ -234,6 +237,74 @@ theorem C18_no_colour_no_escape (level : Nat) (cs : Chunks) :
   simp only [WriterKind.isTty]
   rw [specToks_no_colour, render_bytes]
 
+/-! ## (H) with format specs on and around highlight groups, at every nesting level
+
+`{h(…):<8.5}`, `{({h(…)}):.3}`, …: the group's `set_style` calls travel through the width / fill /
+alignment writer stack of `Chunk::encode` (`codeFmtOps`, proved in C10 to be what the byte-level
+writers do; `C10_styles_preserved`: the stack never drops, duplicates or reorders style calls). -/
+
+/-- a sink can serve every style request a pattern makes (the highlight styles need ≤ 10 bytes) -/
+theorem C18_formatted_styles_fit (level : Nat) (f : FChunks) :
+    ∀ s ∈ Pattern.Out.styles (opsOf level f), setStyleN bufLen s = .ok (sgr s) ∧ s ∈ allStyles := by
+  intro s hs
+  rw [styles_opsOf] at hs
+  rcases specStyles_mem level f s hs with h | h
+  · exact ⟨setStyleN_highlight bufLen bufLen_ok level s h, highlightStyle_mem level s h⟩
+  · subst h; exact ⟨setStyleN_plain bufLen bufLen_ok, plain_mem⟩
+
+/-- For every writer kind, level and pattern whose highlight groups — and the groups around them,
+to any depth — carry ARBITRARY parameters (any fill, either alignment, any minimum and maximum
+width, maximum 0 and minimum > maximum included): the encoder output is well defined (no panic),
+and the SGR sequences in it are exactly one opening style and one reset per highlighted group of
+a styled level, in nesting order (`specStyles`, which ignores all parameters) — every opening
+sequence is matched by a later reset, however much of the group's text was cut. On a writer
+without colour there is no sequence at all. -/
+theorem C18_highlight_reset_formatted (kind : WriterKind) (level : Nat) (f : FChunks) :
+    encodeFormatted kind level f = .ok (render (toksOfOps kind.isTty (opsOf level f))) ∧
+    sgrToks (toksOfOps kind.isTty (opsOf level f)) = (if kind.isTty then specStyles level f else []) ∧
+    wellNested (specStyles level f) = true := by
+  refine ⟨?_, ?_, ?_⟩
+  · exact sinkN_eq bufLen kind _ (fun s hs => (C18_formatted_styles_fit level f s hs).1)
+  · rw [sgrToks_toksOfOps, styles_opsOf]
+  · have := wellNestedFrom_specStyles level f 0 []
+    simpa [wellNested, wellNestedFrom] using this
+
+/-- One group, spelled out: whatever its parameters `p` (e.g. `maxW = some 0`: every character is
+swallowed), the style calls that reach the sink are the level's style, the inner groups' calls,
+and the reset. -/
+theorem C18_highlight_group_followed_by_reset_formatted (p : Pattern.Params) (level : Nat)
+    (st : Style) (h : highlightStyle level = some st) (inner : FChunks) :
+    Pattern.Out.styles (opsOf level (.highlight p inner .nil)) =
+      st :: specStyles level inner ++ [Style.plain] := by
+  rw [styles_opsOf]
+  simp [specStyles, h]
+
+/-- The strict scanner accepts the output of every such pattern, reads back exactly the style
+requests, and the executable Spec verdict used on the real bytes is `ok` on the model's bytes. -/
+theorem C18_formatted_output_scans (kind : WriterKind) (level : Nat) (f : FChunks)
+    (h : fEscFree f = true) :
+    ∃ bs toks, encodeFormatted kind level f = .ok bs ∧ scan bs = some toks ∧
+      sgrToks toks = (if kind.isTty then specStyles level f else []) ∧
+      formattedVerdict kind.isTty level f bs = .ok := by
+  obtain ⟨h1, h2, h3⟩ := C18_highlight_reset_formatted kind level f
+  have hscan : scan (render (toksOfOps kind.isTty (opsOf level f))) =
+      some (toksOfOps kind.isTty (opsOf level f)) := by
+    apply scan_render
+    · exact toksOfOps_bytes _ _ (opsOf_escFree level f h)
+    · intro s hs
+      exact scan_sgr_table s (C18_formatted_styles_fit level f s (toksOfOps_sgrs _ _ s hs)).2
+  refine ⟨_, _, h1, hscan, h2, ?_⟩
+  simp only [formattedVerdict, hscan, h2]
+  cases kind <;> simp [WriterKind.isTty, h3]
+
+/-- Patterns without any width parameter: the formatted model is the byte-level model of
+`Model.lean` (so `C18_highlight_reset` … `C18_console_spec_fixed` speak about the same encoder). -/
+theorem C18_formatted_generalises (kind : WriterKind) (level : Nat) (f : FChunks)
+    (h : f.unformatted = true) :
+    encodeFormatted kind level f = encodeChunks kind level f.erase := by
+  rw [(C18_highlight_reset_formatted kind level f).1, C18_highlight_reset, specEncode,
+    toksOfOps_unformatted _ _ _ h]
+
 /-! ## the appender end to end: stream, silence, colour -/
 
 /-- The repaired code (13-byte buffer, isatty test) satisfies the whole statement: for every
@@ -301,6 +372,18 @@ example :
 /-- the same pattern is escape-free input, so `C18_output_scans` applies to it -/
 example : escFree (.highlight (.text [65] (.highlight (.text [66] .nil) (.text [67] .nil))) (.text [68] .nil)) = true := by
   decide
+
+/-- `{h(hello world):.5}|` for an Error record on a colour writer: the text is cut to `hello`, the
+reset still follows; and with `.0` nothing but style and reset remains -/
+example :
+    encodeFormatted .tty 1 (.highlight { maxW := some 5 } (.text "hello world".toList .nil) (.text ['|'] .nil))
+      = .ok ([27, 91, 48, 59, 51, 49, 59, 49, 109, 104, 101, 108, 108, 111, 27, 91, 48, 109, 124]) ∧
+    encodeFormatted .tty 1 (.group { maxW := some 0 } (.highlight {} (.text ['a'] .nil) .nil) .nil)
+      = .ok ([27, 91, 48, 59, 51, 49, 59, 49, 109, 27, 91, 48, 109]) := by decide
+
+/-- a stream whose reset was swallowed is not well nested (what `sig=C18/highlight-reset-missing` reports) -/
+example : wellNested [{ text := some 1, intense := some true }] = false ∧
+    wellNested [{ text := some 1, intense := some true }, Style.plain] = true := by decide
 
 /-- a colour-neutral environment exists (hypothesis of the `_partial` theorems) and a forced one too -/
 example : colorMode {} = .auto ∧ colorMode { clicolorForce := .one } = .always ∧
